@@ -34,6 +34,10 @@ def plan(tier, seed):
     return specs
 
 
+DIRECTIVE_LIKE = (b'keep', b'keep', b'keep rolling', b'preserve', b'include', b'luamin', b'minify', b'nolint', b'todo', b'TODO', b'global', b'export',
+                  b'no-minify', b'@keep', b'!keep', b'#include', b'skip', b'ignore', b'title', b'by', b'author', b'version', b'end', b'pragma')
+
+
 def make_comment(rng, kind):
     txt = bytearray(layout.comment_text(rng).replace(b']', b')'))
     if rng.random() < 0.3:
@@ -43,6 +47,9 @@ def make_comment(rng, kind):
             txt[pos:pos] = rng.choice((b'\t', b'\t', b'\t\t', bytes([rng.choice(range(14, 32))]), b'\x7f', b' \t ', b'\x0b', b'\x0c', b'  ', b'   '))
         if txt[:1] == b'[':
             txt[0:0] = b' '
+    if rng.random() < 0.12:
+        # titles and bylines that begin with a word tools like to give a meaning to; to luamin they are comment text like any other
+        txt[0:0] = rng.choice((b'', b' ', b'  ')) + rng.choice(DIRECTIVE_LIKE) + rng.choice((b' ', b': ', b'', b' '))
     txt = bytes(txt)
     if kind == 'dash':
         return b'--' + txt
